@@ -12,7 +12,7 @@
 //! `char::is_whitespace`, and answers `pool-mismatch …` if the table in the case line is wrong.
 use crate::ops::map::{names, parse_toks};
 use crate::util::*;
-use sourcemap::{RawToken, SourceMap, SourceView};
+use sourcemap::{DecodedMap, RawToken, SourceMap, SourceView};
 use std::sync::Arc;
 
 fn tok(col: u32, name: u32) -> RawToken {
@@ -107,6 +107,17 @@ pub fn run(t: &[&str]) -> String {
                     None => "-".to_string(),
                 })
                 .collect();
+            // the same questions through `DecodedMap`: identical answers when name and view are given, none otherwise
+            let dm = DecodedMap::Regular(sm.clone());
+            for (k, (l, c, n)) in queries.iter().enumerate() {
+                let d = dm.get_original_function_name(*l, *c, Some(n), Some(&sv)).map(|s| s.to_string()).unwrap_or("-".into());
+                if d != rs[k] {
+                    return "err dispatch-differs".into();
+                }
+                if dm.get_original_function_name(*l, *c, None, Some(&sv)).is_some() || dm.get_original_function_name(*l, *c, Some(n), None).is_some() {
+                    return "err dispatch-answers-without-inputs".into();
+                }
+            }
             format!("ok {}", show_list(&rs))
         }
         _ => "bad-op".into(),
